@@ -119,6 +119,49 @@ var readOnlyCallees = map[string]bool{
 	"strings.Replace": true, "strings.Compare": true, "strings.Contains": true, "strings.LastIndex": true,
 }
 
+// readOnlyExternal: library callees that do not write through their pointer /
+// slice / map arguments (or are documented safe for concurrent use on one
+// receiver), by class rather than one by one:
+//   - package-level functions of strings, strconv, unicode, unicode/utf8, math,
+//     errors, bytes (they read their arguments and return new values);
+//   - fmt's S- and E- family (Sprint*, Errorf) — not the F-/Fscan family, which
+//     write to / read into an argument;
+//   - methods of *strings.Replacer and *regexp.Regexp other than Longest
+//     ("safe for concurrent use by multiple goroutines"), of time.Time and
+//     *time.Location, of reflect.Type implementations;
+//   - getters of reflect.Value (everything but Set*, Grow, Clear, Send, Recv, Call*).
+func readOnlyExternal(sc *ssa.Function) bool {
+	if sc == nil || sc.Pkg == nil || sc.Pkg.Pkg == nil {
+		return false
+	}
+	pkg := sc.Pkg.Pkg.Path()
+	recv := sc.Signature.Recv()
+	if recv == nil {
+		switch pkg {
+		case "strings", "strconv", "unicode", "unicode/utf8", "unicode/utf16", "math", "math/bits", "errors", "bytes":
+			return true
+		case "fmt":
+			n := sc.Name()
+			return strings.HasPrefix(n, "Sprint") || n == "Errorf"
+		case "reflect":
+			n := sc.Name()
+			return n == "TypeOf" || n == "ValueOf" || n == "DeepEqual" || n == "Indirect"
+		}
+		return false
+	}
+	rt := typeStr(recv.Type())
+	switch rt {
+	case "*strings.Replacer", "time.Time", "*time.Location", "*reflect.rtype":
+		return true
+	case "*regexp.Regexp":
+		return sc.Name() != "Longest"
+	case "reflect.Value":
+		n := sc.Name()
+		return !(strings.HasPrefix(n, "Set") || strings.HasPrefix(n, "Call") || n == "Grow" || n == "Clear" || n == "Send" || n == "Recv" || n == "TrySend" || n == "TryRecv")
+	}
+	return false
+}
+
 type globalWrite struct {
 	fn   *ssa.Function
 	pos  string
@@ -215,7 +258,7 @@ func (w *World) globalWrites() (map[*ssa.Global][]globalWrite, []string) {
 						}
 						continue
 					}
-					if readOnlyCallees[name] {
+					if readOnlyCallees[name] || readOnlyExternal(com.StaticCallee()) {
 						continue
 					}
 					for _, a := range com.Args {
